@@ -1,6 +1,7 @@
 //! C08 — chain reduction is a homotopy equivalence with correct transfer maps   [single worker schedule]
 use crate::ctx::Rel;
 use crate::explore::{Harness, InputSpec};
+use crate::props::c09::RingSel;
 use crate::util::*;
 use crate::vint::{VInt, VIntOps, VF};
 use num_traits::{One, Zero};
@@ -11,6 +12,7 @@ use yui_matrix::sparse::{SpMat, SpVec};
 use yui_matrix::MatTrait;
 
 pub struct Reduce {
+    pub ring: RingSel,
     pub dims: Vec<usize>, // ranks of C_0 .. C_L ; d_i : C_i -> C_{i+1}
     pub b: i64,
     pub mode: u8, // 0: reduce (shallow + deep); 1..=8: reduce_at_spec(middle, type, cond) once
@@ -35,16 +37,23 @@ impl Reduce {
     fn n_entries(&self) -> usize {
         self.dims.windows(2).map(|w| w[0] * w[1]).sum()
     }
-    fn mats<I: VInt>(&self, xs: &[I]) -> Vec<Grid<I>>
+    fn arity(&self) -> usize {
+        if self.ring == RingSel::ZH { 2 } else { 1 }
+    }
+    fn mats<I, R>(&self, xs: &[I]) -> Vec<Grid<R>>
     where
+        I: VInt,
         for<'x> &'x I: VIntOps<I>,
+        R: VRing<I>,
+        for<'x> &'x R: RingOps<R>,
     {
+        let k = self.arity();
         let mut at = 0;
         let mut out = Vec::new();
         for w in self.dims.windows(2) {
             let (c, r) = (w[0], w[1]);
-            out.push(build_grid::<I, I>(r, c, &xs[at..at + r * c]));
-            at += r * c;
+            out.push(build_grid::<I, R>(r, c, &xs[at..at + r * c * k]));
+            at += r * c * k;
         }
         out
     }
@@ -73,17 +82,18 @@ where
 
 impl Harness for Reduce {
     fn id(&self) -> String {
-        format!("reduce/dims{:?}/B{}/mode{}{}", self.dims, self.b, self.mode, if self.track { "/tracked" } else { "" })
+        format!("reduce/{:?}/dims{:?}/B{}/mode{}{}", self.ring, self.dims, self.b, self.mode, if self.track { "/tracked" } else { "" })
     }
     fn functions(&self) -> Vec<&'static str> {
         vec!["ChainReducer::{new,set_matrix,add_vec,reduce_all,reduce_at,reduce_at_spec,preferred_strategy,update_trans,update_mats,update_vecs,matrix,trans,vecs}",
              "chain_reducer::{pivots,reduce_mat_rows,reduce_mat_cols}", "pivot::find_pivots", "schur::Schur::from_partial_triangular", "Trans::{append_perm,merge,forward_mat,backward_mat}"]
     }
     fn inputs(&self) -> Vec<InputSpec> {
-        let mut v: Vec<InputSpec> = (0..self.n_entries()).map(|k| InputSpec::boxed(&format!("d{}", k), self.b)).collect();
+        let ar = self.arity();
+        let mut v: Vec<InputSpec> = (0..self.n_entries() * ar).map(|k| InputSpec::boxed(&format!("d{}", k), self.b)).collect();
         if self.track {
             for (i, &n) in self.dims.iter().enumerate() {
-                for k in 0..n {
+                for k in 0..n * ar {
                     v.push(InputSpec::boxed(&format!("v{}_{}", i, k), self.b));
                 }
             }
@@ -94,7 +104,30 @@ impl Harness for Reduce {
     where
         for<'x> &'x I: VIntOps<I>,
     {
-        let ds = self.mats(xs);
+        match self.ring {
+            RingSel::ZH => self.pre_zh::<I>(xs),
+            _ => self.pre_z::<I>(xs),
+        }
+    }
+    fn body<I: VInt>(&self, xs: &[I])
+    where
+        for<'x> &'x I: VIntOps<I>,
+    {
+        match self.ring {
+            RingSel::Q => self.run::<I, yui::Ratio<I>>(xs),
+            RingSel::ZH => self.run::<I, yui::poly::Poly<'H', I>>(xs),
+            _ => self.run::<I, I>(xs),
+        }
+    }
+}
+
+impl Reduce {
+    /// d∘d = 0 on integer entries (also used for Q: entries are integers embedded in Q)
+    fn pre_z<I: VInt>(&self, xs: &[I])
+    where
+        for<'x> &'x I: VIntOps<I>,
+    {
+        let ds = self.mats::<I, I>(xs);
         for i in 0..ds.len().saturating_sub(1) {
             let p = grid_mul(&ds[i + 1], &ds[i], self.dims[i + 1], self.dims[i]);
             for row in &p {
@@ -104,16 +137,47 @@ impl Harness for Reduce {
             }
         }
     }
-    fn body<I: VInt>(&self, xs: &[I])
+    /// d∘d = 0 over Z[H], branch-free on coefficients: (a + bH)(c + dH) = ac + (ad + bc)H + bd H^2
+    fn pre_zh<I: VInt>(&self, xs: &[I])
     where
         for<'x> &'x I: VIntOps<I>,
     {
+        let mut at = 0;
+        let mut ms: Vec<Vec<Vec<(I, I)>>> = Vec::new();
+        for w in self.dims.windows(2) {
+            let (c, r) = (w[0], w[1]);
+            ms.push((0..r).map(|i| (0..c).map(|j| (xs[at + 2 * (i * c + j)].clone(), xs[at + 2 * (i * c + j) + 1].clone())).collect()).collect());
+            at += 2 * r * c;
+        }
+        for i in 0..ms.len().saturating_sub(1) {
+            let (a, b) = (&ms[i + 1], &ms[i]);
+            for r in 0..a.len() {
+                for c in 0..self.dims[i] {
+                    let (mut c0, mut c1, mut c2) = (I::zero(), I::zero(), I::zero());
+                    for k in 0..self.dims[i + 1] {
+                        let ((p, q), (u, v)) = (&a[r][k], &b[k][c]);
+                        c0 = &c0 + &(p * u);
+                        c1 = &c1 + &(&(p * v) + &(q * u));
+                        c2 = &c2 + &(q * v);
+                    }
+                    I::assume(VF::And(vec![VF::zero(c0), VF::zero(c1), VF::zero(c2)]));
+                }
+            }
+        }
+    }
+    fn run<I, R>(&self, xs: &[I])
+    where
+        I: VInt,
+        for<'x> &'x I: VIntOps<I>,
+        R: VRing<I> + nalgebra_scalar::Sc,
+        for<'x> &'x R: RingOps<R>,
+    {
         let dims = &self.dims;
         let l = dims.len();
-        let ds = self.mats(xs);
-        let mut red: ChainReducer<isize, I> = ChainReducer::new(0..l as isize, 1);
+        let ds = self.mats::<I, R>(xs);
+        let mut red: ChainReducer<isize, R> = ChainReducer::new(0..l as isize, 1);
         for i in 0..=l {
-            let mat: SpMat<I> = if i + 1 < l {
+            let mat: SpMat<R> = if i + 1 < l {
                 grid_to_sp(&ds[i], dims[i + 1], dims[i])
             } else if i + 1 == l {
                 SpMat::zero((0, dims[i]))
@@ -122,12 +186,13 @@ impl Harness for Reduce {
             };
             red.set_matrix(i as isize, mat, true);
         }
-        let mut tracked: Vec<Vec<I>> = Vec::new();
+        let mut tracked: Vec<Vec<R>> = Vec::new();
         if self.track {
-            let mut at = self.n_entries();
+            let ar = self.arity();
+            let mut at = self.n_entries() * ar;
             for (i, &n) in dims.iter().enumerate() {
-                let v: Vec<I> = xs[at..at + n].to_vec();
-                at += n;
+                let v: Vec<R> = xs[at..at + n * ar].chunks(ar).map(|c| R::build(c)).collect();
+                at += n * ar;
                 red.add_vec(i as isize, SpVec::from(v.clone()));
                 tracked.push(v);
             }
@@ -145,7 +210,7 @@ impl Harness for Reduce {
         // ---- read back
         let nd: Vec<usize> = (0..l).map(|i| red.matrix(i as isize).map(|m| m.ncols()).unwrap_or(usize::MAX)).collect();
         let mut ok_shapes = nd.iter().all(|&x| x != usize::MAX);
-        let mut rd: Vec<Grid<I>> = Vec::new();
+        let mut rd: Vec<Grid<R>> = Vec::new();
         for i in 0..l.saturating_sub(1) {
             let mm = red.matrix(i as isize).unwrap();
             if mm.shape() != (nd[i + 1], nd[i]) {
@@ -162,13 +227,13 @@ impl Harness for Reduce {
             let p = grid_mul(&rd[i + 1], &rd[i], nd[i + 1], nd[i]);
             for (a, row) in p.iter().enumerate() {
                 for (b, e) in row.iter().enumerate() {
-                    I::oblige(&format!("d'_{} d'_{} [{},{}] = 0", i + 1, i, a, b), VF::zero(e.clone()));
+                    oblige_zero::<I, R>(&format!("d'_{} d'_{} [{},{}] = 0", i + 1, i, a, b), e);
                 }
             }
         }
         // transfer maps
-        let mut fs: Vec<Grid<I>> = Vec::new();
-        let mut bs: Vec<Grid<I>> = Vec::new();
+        let mut fs: Vec<Grid<R>> = Vec::new();
+        let mut bs: Vec<Grid<R>> = Vec::new();
         for i in 0..l {
             let t = red.trans(i as isize).expect("trans requested");
             I::oblige(&format!("trans {} dims", i), VF::of_bool(t.src_dim() == dims[i] && t.tgt_dim() == nd[i]));
@@ -180,18 +245,18 @@ impl Harness for Reduce {
         }
         for i in 0..l {
             if nd[i] > 0 {
-                oblige_grid_eq::<I, I>(&format!("f_{0} b_{0} = I", i), &grid_mul(&fs[i], &bs[i], dims[i], nd[i]), &grid_id::<I>(nd[i]));
+                oblige_grid_eq::<I, R>(&format!("f_{0} b_{0} = I", i), &grid_mul(&fs[i], &bs[i], dims[i], nd[i]), &grid_id::<R>(nd[i]));
             }
         }
         for i in 0..l.saturating_sub(1) {
             // f_{i+1} d_i = d'_i f_i      (nd[i+1] x dims[i])
             if nd[i + 1] > 0 && dims[i] > 0 {
-                oblige_grid_eq::<I, I>(&format!("f_{} d_{} = d'_{} f_{}", i + 1, i, i, i),
+                oblige_grid_eq::<I, R>(&format!("f_{} d_{} = d'_{} f_{}", i + 1, i, i, i),
                     &grid_mul(&fs[i + 1], &ds[i], dims[i + 1], dims[i]), &grid_mul(&rd[i], &fs[i], nd[i], dims[i]));
             }
             // d_i b_i = b_{i+1} d'_i      (dims[i+1] x nd[i])
             if dims[i + 1] > 0 && nd[i] > 0 {
-                oblige_grid_eq::<I, I>(&format!("d_{} b_{} = b_{} d'_{}", i, i, i + 1, i),
+                oblige_grid_eq::<I, R>(&format!("d_{} b_{} = b_{} d'_{}", i, i, i + 1, i),
                     &grid_mul(&ds[i], &bs[i], dims[i], nd[i]), &grid_mul(&bs[i + 1], &rd[i], nd[i + 1], nd[i]));
             }
         }
@@ -203,15 +268,28 @@ impl Harness for Reduce {
                 I::oblige(&format!("tracked vector {} dim", i), VF::of_bool(w.len() == nd[i]));
                 if w.len() == nd[i] {
                     for k in 0..nd[i] {
-                        let want = (0..dims[i]).fold(I::zero(), |s, j| &s + &(&fs[i][k][j] * &tracked[i][j]));
-                        I::oblige(&format!("tracked vector {}[{}] = (f v)[{}]", i, k, k), VF::zero(&w[k] - &want));
+                        let want = (0..dims[i]).fold(R::zero(), |s, j| &s + &(&fs[i][k][j] * &tracked[i][j]));
+                        oblige_zero::<I, R>(&format!("tracked vector {}[{}] = (f v)[{}]", i, k, k), &(&w[k] - &want));
                     }
                 }
             }
         }
-        // same homology (reference: ranks and invariant factors from minors, original vs reduced)
-        let h0 = homology_sig(&ds, dims);
-        let h1 = homology_sig(&rd, &nd);
+        // same homology.  Z: ranks and invariant factors from minors; other rings: ranks from minors only
+        if self.ring != RingSel::Z {
+            if self.ring == RingSel::Q {
+                for i in 0..l {
+                    let rk = |d: &Vec<Grid<R>>, dm: &[usize], j: usize| if j + 1 < dm.len() { rank_by_minors(&d[j], dm[j + 1], dm[j]) } else { 0 };
+                    let h0 = dims[i] - rk(&ds, dims, i) - if i >= 1 { rk(&ds, dims, i - 1) } else { 0 };
+                    let h1 = nd[i] - rk(&rd, &nd, i) - if i >= 1 { rk(&rd, &nd, i - 1) } else { 0 };
+                    I::oblige(&format!("H_{} dimension preserved", i), VF::of_bool(h0 == h1));
+                }
+            }
+            return;
+        }
+        // (R = I here; the reference works on the integer grids)
+        let to_i = |g: &Vec<Grid<R>>| -> Vec<Grid<I>> { g.iter().map(|m| m.iter().map(|r| r.iter().map(|e| e.zero_comps().into_iter().next().unwrap_or_else(I::zero)).collect()).collect()).collect() };
+        let h0 = homology_sig(&to_i(&ds), dims);
+        let h1 = homology_sig(&to_i(&rd), &nd);
         for i in 0..l {
             I::oblige(&format!("H_{} free rank preserved", i), VF::of_bool(h0[i].0 == h1[i].0));
             I::oblige(&format!("H_{} number of torsion summands preserved", i), VF::of_bool(h0[i].1.len() == h1[i].1.len()));
@@ -228,20 +306,30 @@ pub fn configs(tier: crate::registry::Tier, _seed: u64) -> Vec<crate::registry::
     use crate::registry::{entry, Tier};
     let mut v = Vec::new();
     for dims in [vec![1, 1], vec![2, 2], vec![1, 2, 1], vec![2, 2, 1], vec![1, 2, 2], vec![2, 1, 2], vec![0, 2, 1], vec![2, 0, 1], vec![1, 1, 1, 1]] {
-        v.push(entry(Reduce { dims: dims.clone(), b: 2, mode: 0, track: false }, 1500, 120.0));
+        v.push(entry(Reduce { ring: RingSel::Z, dims: dims.clone(), b: 2, mode: 0, track: false }, 1500, 120.0));
     }
-    v.push(entry(Reduce { dims: vec![1, 2, 1], b: 2, mode: 0, track: true }, 1500, 120.0));
-    v.push(entry(Reduce { dims: vec![2, 2], b: 2, mode: 0, track: true }, 1500, 120.0));
+    v.push(entry(Reduce { ring: RingSel::Z, dims: vec![1, 2, 1], b: 2, mode: 0, track: true }, 1500, 120.0));
+    v.push(entry(Reduce { ring: RingSel::Z, dims: vec![2, 2], b: 2, mode: 0, track: true }, 1500, 120.0));
     for mode in 1..=8u8 {
-        v.push(entry(Reduce { dims: vec![1, 2, 2], b: 2, mode, track: mode % 3 == 0 }, 1500, 120.0));
-        v.push(entry(Reduce { dims: vec![2, 2, 1], b: 2, mode, track: false }, 1500, 120.0));
+        v.push(entry(Reduce { ring: RingSel::Z, dims: vec![1, 2, 2], b: 2, mode, track: mode % 3 == 0 }, 1500, 120.0));
+        v.push(entry(Reduce { ring: RingSel::Z, dims: vec![2, 2, 1], b: 2, mode, track: false }, 1500, 120.0));
+    }
+    // Q: units other than +-1 (AnyUnit pivots with u^2 != 1); Z[H]: non-PID, units +-1, default c_weight
+    for ring in [RingSel::Q, RingSel::ZH] {
+        let b = if ring == RingSel::ZH { 1 } else { 2 };
+        v.push(entry(Reduce { ring, dims: vec![1, 2, 1], b, mode: 0, track: true }, 1500, 120.0));
+        v.push(entry(Reduce { ring, dims: vec![2, 2], b, mode: 0, track: false }, 1500, 120.0));
+        v.push(entry(Reduce { ring, dims: vec![1, 3, 1], b: 2, mode: 0, track: false }, 1500, 120.0));
+        for mode in [2u8, 3, 4, 6, 7, 8] {
+            v.push(entry(Reduce { ring, dims: vec![1, 2, 2], b, mode, track: false }, 800, 90.0));
+        }
     }
     if tier == Tier::Thorough {
         for dims in [vec![2, 3, 2], vec![2, 2, 2], vec![1, 2, 2, 1], vec![2, 3, 1], vec![1, 3, 2], vec![3, 3]] {
-            v.push(entry(Reduce { dims: dims.clone(), b: 2, mode: 0, track: true }, 50000, 1800.0));
+            v.push(entry(Reduce { ring: RingSel::Z, dims: dims.clone(), b: 2, mode: 0, track: true }, 50000, 1800.0));
         }
         for mode in 1..=8u8 {
-            v.push(entry(Reduce { dims: vec![2, 3, 2], b: 1, mode, track: true }, 50000, 1200.0));
+            v.push(entry(Reduce { ring: RingSel::Z, dims: vec![2, 3, 2], b: 1, mode, track: true }, 50000, 1200.0));
         }
     }
     v
